@@ -124,6 +124,7 @@ def relevant_symbols(t):
     :return: a list of integers
     """
 
+    t = t.tt()  # The slices below refer to the spatial axis of 3-D cores without Tucker factors
     cores = [torch.cat((c[:, 1:2, :] - c[:, 0:1, :], c), dim=1) for c in t.cores]
     t2 = tn.Tensor(cores)
     return [
